@@ -6,7 +6,10 @@ import (
 	"io"
 	"os"
 	"os/exec"
+	"strconv"
 	"sync"
+	"sync/atomic"
+	"syscall"
 	"time"
 )
 
@@ -181,10 +184,28 @@ func ServeWorker(handle func(job []byte) []byte) {
 		os.Exit(2)
 	}
 	in := bufio.NewReaderSize(os.Stdin, 1<<20)
+	// Optional CPU-time watchdog (VERIF_CPU_WATCHDOG_S=<seconds>): a job that burns more
+	// CPU time of this process than the limit is an endless loop in the code under test.
+	// CPU time, not wall-clock time: machine load does not move it. The parent's
+	// wall-clock watchdog stays in force for jobs that block without using the CPU.
+	var jobStart int64 // CPU ns at the start of the job in progress, 0 = idle
+	if lim, _ := strconv.Atoi(os.Getenv("VERIF_CPU_WATCHDOG_S")); lim > 0 {
+		go func() {
+			for {
+				time.Sleep(500 * time.Millisecond)
+				if st := atomic.LoadInt64(&jobStart); st != 0 && cpuNow()-st > int64(lim)*1e9 {
+					fmt.Fprintf(os.Stderr, "fatal error: cpu watchdog: one job used more than %d s of CPU time (endless loop)\n", lim)
+					os.Exit(3)
+				}
+			}
+		}()
+	}
 	for {
 		line, err := in.ReadBytes('\n')
 		if len(line) > 0 && line[len(line)-1] == '\n' {
+			atomic.StoreInt64(&jobStart, cpuNow()+1)
 			rep := handle(line[:len(line)-1])
+			atomic.StoreInt64(&jobStart, 0)
 			if _, e := out.Write(append(append([]byte(nil), rep...), '\n')); e != nil {
 				os.Exit(0) // parent gone
 			}
@@ -193,4 +214,13 @@ func ServeWorker(handle func(job []byte) []byte) {
 			os.Exit(0)
 		}
 	}
+}
+
+// cpuNow: user + system CPU time of this process in nanoseconds.
+func cpuNow() int64 {
+	var ru syscall.Rusage
+	if syscall.Getrusage(syscall.RUSAGE_SELF, &ru) != nil {
+		return 0
+	}
+	return (int64(ru.Utime.Sec)+int64(ru.Stime.Sec))*1e9 + (int64(ru.Utime.Usec)+int64(ru.Stime.Usec))*1e3
 }
